@@ -1176,7 +1176,15 @@ impl TensorStore {
         };
 
         let path = path.as_ref();
-        let temp_path = path.with_extension("tmp");
+        // Append ".tmp" to the whole file name: replacing the extension would make the
+        // temporary file BE the target when the target itself ends in ".tmp" (a crash
+        // during the save then leaves a torn target), and would make targets that
+        // differ only in extension share one temporary file.
+        let temp_path = {
+            let mut name = path.as_os_str().to_os_string();
+            name.push(".tmp");
+            std::path::PathBuf::from(name)
+        };
 
         let keys = self.router.scan("");
         let mut entries = Vec::with_capacity(keys.len());
